@@ -6,7 +6,8 @@
    [two_opt], [k_opt], [pdp_op] = the three branches of _local_operator as coded; [two_opt_mask],
    [pdp_admissible], [kopt_builder] = the environments' move masks / sequential move sampler. *)
 From Coq Require Import ZArith List Bool Arith Permutation.
-From RL4CO Require Import Env.Improve Env.ImproveTwoOpt Env.ImprovePDP Env.ImproveKopt Env.ImproveKoptFinite.
+From RL4CO Require Import Env.Improve Env.ImproveTwoOpt Env.ImprovePDP Env.ImproveKopt Env.ImproveKoptFinite
+  Env.ImproveRun Env.ImproveBatch1.
 Import ListNotations.
 
 (* 1. best-so-far bookkeeping of _step: UNBOUNDED -- any tour type, any operator, any cost function, any move
@@ -110,6 +111,76 @@ Theorem C09_k_opt_two_nodes_refuted :
 Proof. exact k_opt_two_nodes_refuted. Qed.
 Print Assumptions C09_k_opt_two_nodes_refuted.
 
+(* 10. WHOLE RUNS, 2-opt (UNBOUNDED: any n, any distance data D, any number of steps).  A step is [inl [first; second]]
+   (a move through _local_operator, required to lie in get_mask) or [inr target] (step_to_solution, target a tour
+   of the same size); [admitted_seq] says every step of the sequence is admitted in the state it is taken in.
+   Then, after the run started by _reset on the tour t0: the current and the stored best tour are single cycles,
+   the reported current cost is the length of the current tour and the best-so-far cost is the length of the stored
+   best tour (with 1.: also the minimum over all tours seen, and the rewards telescope). *)
+Theorem C09_two_opt_run_valid :
+  forall (D : nat -> nat -> Z) (t0 : list nat) (acts : list (list nat + list nat)),
+    is_tour t0 ->
+    admitted_seq (list nat) (list nat + list nat) (step_op (fun t m => two_opt t (nth 0 m 0) (nth 1 m 0)))
+                 (adm_two_opt (length t0)) t0 acts ->
+    let s := fst (bsf_run (list nat) (list nat + list nat) (step_op (fun t m => two_opt t (nth 0 m 0) (nth 1 m 0)))
+                          (get_costs D) (bsf_reset (list nat) (get_costs D) t0) acts) in
+    is_tour (rec_current s) /\ is_tour (rec_best s) /\
+    cost_current s = tour_length D (walk (rec_current s) 0 (length (rec_current s))) /\
+    cost_bsf s = tour_length D (walk (rec_best s) 0 (length (rec_best s))).
+Proof. exact two_opt_run_valid. Qed.
+Print Assumptions C09_two_opt_run_valid.
+
+(* 11. WHOLE RUNS, PDP ruin-repair (UNBOUNDED: any n = 2h+1, any D, any number of steps): steps [inl [a0; first; second]]
+   admitted by get_mask(a0 + 1) with a0 < h, or [inr target] with a valid PDP tour of the same size *)
+Theorem C09_pdp_run_valid :
+  forall (D : nat -> nat -> Z) (h : nat) (t0 : list nat) (acts : list (list nat + list nat)),
+    length t0 = 2 * h + 1 -> pdp_valid t0 ->
+    admitted_seq (list nat) (list nat + list nat) (step_op (fun t m => pdp_op t (nth 0 m 0) (nth 1 m 0) (nth 2 m 0)))
+                 (adm_pdp (length t0)) t0 acts ->
+    let s := fst (bsf_run (list nat) (list nat + list nat)
+                          (step_op (fun t m => pdp_op t (nth 0 m 0) (nth 1 m 0) (nth 2 m 0)))
+                          (get_costs D) (bsf_reset (list nat) (get_costs D) t0) acts) in
+    pdp_valid (rec_current s) /\ pdp_valid (rec_best s) /\
+    cost_current s = tour_length D (walk (rec_current s) 0 (length (rec_current s))) /\
+    cost_bsf s = tour_length D (walk (rec_best s) 0 (length (rec_best s))).
+Proof. exact pdp_run_valid. Qed.
+Print Assumptions C09_pdp_run_valid.
+
+(* 12. WHOLE RUNS, k-opt with k_max in {3,4}: PARTIAL -- BOUNDED in n (3 <= n <= 8 for k = 3, 3 <= n <= 7 for k = 4) by 8.,
+   unbounded in the number of steps and in D.  Steps [inl a] with a = the action the sequential builder forms from some
+   k draws, or [inr target] with a tour of the same size *)
+Theorem C09_kopt_run_valid_partial :
+  forall (D : nat -> nat -> Z) (k : nat) (t0 : list nat) (acts : list (list nat + list nat)),
+    (k = 3 /\ 3 <= length t0 <= 8) \/ (k = 4 /\ 3 <= length t0 <= 7) ->
+    is_tour t0 ->
+    admitted_seq (list nat) (list nat + list nat) (step_op (k_opt k)) (adm_kopt k (length t0)) t0 acts ->
+    let s := fst (bsf_run (list nat) (list nat + list nat) (step_op (k_opt k)) (get_costs D)
+                          (bsf_reset (list nat) (get_costs D) t0) acts) in
+    is_tour (rec_current s) /\ is_tour (rec_best s) /\
+    cost_current s = tour_length D (walk (rec_current s) 0 (length (rec_current s))) /\
+    cost_bsf s = tour_length D (walk (rec_best s) 0 (length (rec_best s))).
+Proof. exact kopt_run_valid_partial. Qed.
+Print Assumptions C09_kopt_run_valid_partial.
+
+(* 13. every batch size (shape-level model Env/ImproveBatch1.v of the statements
+   `stopped = (...).squeeze(-1); k_action_left[stopped, i] = ...` of TSPkoptEnv._random_action): every index is in
+   range for every number B >= 1 of instances and every k_max.  (The former bare .squeeze() went out of range at
+   B = 1: recorded as fixed in known_findings.json, signature "tspkopt/k>=3: _random_action-raises-at-batch-size-1",
+   repo commit a3d4cc5; the old statement is ImproveBatch1.old_sampler_batch1_out_of_range.) *)
+Theorem C09_kopt_sampler_indexing_ok_all_batch_sizes :
+  forall B k : nat, 1 <= B -> kopt_sampler_indexing_ok B k = true.
+Proof. exact kopt_sampler_ok_all. Qed.
+Print Assumptions C09_kopt_sampler_indexing_ok_all_batch_sizes.
+
+(* 14. every batch size (memory-layout model of `action_record[:, :-1] = action_record[:, 1:].clone()` in
+   PDPRuinRepairEnv._step, action_record of shape [B, L, h]; [shift_raises true] = source cloned): torch's overlap test
+   never fires.  (Without the clone it fired at B = 1 whenever L >= 3: recorded as fixed in known_findings.json,
+   signature "pdp_rr: step-raises-at-batch-size-1", repo commit fe089c4; ImproveBatch1.old_shift_batch1_raises.) *)
+Theorem C09_pdp_step_shift_ok_all_batch_sizes :
+  forall B L h : nat, shift_raises true B L h = false.
+Proof. exact shift_ok_all. Qed.
+Print Assumptions C09_pdp_step_shift_ok_all_batch_sizes.
+
 (* the boolean predicates used by the harness and in 8./9. are the specifications *)
 Theorem C09_is_tourb_spec : forall rec, is_tourb rec = true <-> is_tour rec.
 Proof. exact is_tourb_spec. Qed.
@@ -137,6 +208,21 @@ Example C09_ex_k_opt :
   k_opt 3 [3; 5; 4; 1; 0; 2] [0; 1; 2; 0; 3; 5; 1; 2; 4] = [1; 3; 5; 2; 0; 4] /\
   kopt_builder 3 [3; 5; 4; 1; 0; 2] [2; 5; 1] = None.
 Proof. exact k_opt_ex. Qed.
+Example C09_ex_run :
+  let D := fun i j : nat => Z.of_nat (if Nat.leb i j then j - i else i - j) in
+  let opx := step_op (fun t m => two_opt t (nth 0 m 0) (nth 1 m 0)) in
+  let acts := [inl [1; 2]; inl [0; 3]; inr [1; 2; 3; 0]] in
+  is_tourb [2; 3; 1; 0] = true /\
+  two_opt_mask 4 1 2 = true /\ two_opt_mask 4 0 3 = true /\ is_tourb [1; 2; 3; 0] = true /\
+  let r := bsf_run _ _ opx (get_costs D) (bsf_reset _ (get_costs D) [2; 3; 1; 0]) acts in
+  map (get_costs D) (seen_from _ _ opx [2; 3; 1; 0] acts) = [8%Z; 6%Z; 6%Z] /\ snd r = [0%Z; 2%Z; 0%Z] /\
+  cost_bsf (fst r) = 6%Z.
+Proof. exact run_ex. Qed.
+Example C09_ex_batch1 :
+  kopt_sampler_indexing_ok 1 3 = true /\ kopt_sampler_indexing_ok 2 3 = true /\ kopt_sampler_indexing_ok 1 5 = true /\
+  sampler_indexing_ok squeeze 1 3 = false /\
+  shift_raises true 1 7 3 = false /\ shift_raises true 2 7 3 = false /\ shift_raises false 1 7 3 = true.
+Proof. exact batch1_ex. Qed.
 (* improve-then-worsen: costs 10, 7 (improves), 9 (worsens): rec_best stays at the improving tour *)
 Example C09_ex_bsf :
   let cost := fun t : nat => match t with 0 => 10%Z | 1 => 7%Z | _ => 9%Z end in
